@@ -38,6 +38,9 @@ func runC20(c *mon.Ctx) {
 			promKinds = nil
 		}
 		c20Isolation(c, r.Fork(3))
+		if i%4 == 2 {
+			c20M3Probe(c, r.Fork(25))
+		}
 		// fresh roots on which several goroutines make the first use of colliding
 		// bucket sets at the same moment (all of them miss the empty cache together)
 		c09BucketRace(c, r.Fork(4), 4)
@@ -818,4 +821,80 @@ func c20Defaults(c *mon.Ctx, r *mon.Rand) {
 		checkHistLog(c, kind, cached, log, he, ctx)
 	}
 	c.Event("default-bucket-histograms-checked", int64(len(hes)))
+}
+
+// c20M3Probe: a family of colliding sets allocated, in order, on ONE M3
+// reporter, every bucket of every histogram reported once; the bucket tags
+// each histogram emits (observed at batch emission) are compared with the
+// tags the same set produces on a reporter of its own.
+func c20M3Probe(c *mon.Ctx, r *mon.Rand) {
+	fam := c20Family(r)
+	if len(fam) < 2 {
+		return
+	}
+	collect := func(which []int) (map[string][]string, bool) {
+		var mu sync.Mutex
+		out := map[string][]string{}
+		m3.VerifSetBatchHook(func(b m3.VerifBatch) {
+			mu.Lock()
+			defer mu.Unlock()
+			for _, m := range b.Metrics {
+				var id, rng string
+				for _, t := range m.Tags {
+					switch t.Name {
+					case "bucketid":
+						id = t.Value
+					case "bucket":
+						rng = t.Value
+					}
+				}
+				if rng != "" || id != "" {
+					out[m.Name] = append(out[m.Name], id+" "+rng)
+				}
+			}
+		})
+		defer m3.VerifSetBatchHook(nil)
+		rep, err := m3.NewReporter(m3.Options{Service: "s", Env: "e", HostPorts: []string{mon.DeadPort()}, MaxQueueSize: 4096})
+		if err != nil {
+			return nil, false
+		}
+		for _, i := range which {
+			name := fmt.Sprintf("f%d", i)
+			if fam[i].IsDur {
+				h := rep.AllocateHistogram(name, nil, tally.DurationBuckets(append([]time.Duration(nil), fam[i].D...)))
+				for _, p := range mon.RefPairsD(fam[i].D) {
+					h.DurationBucket(p.Lo, p.Hi).ReportSamples(1)
+				}
+			} else {
+				h := rep.AllocateHistogram(name, nil, tally.ValueBuckets(append([]float64(nil), fam[i].V...)))
+				for _, p := range mon.RefPairsV(fam[i].V) {
+					h.ValueBucket(p.Lo, p.Hi).ReportSamples(1)
+				}
+			}
+		}
+		rep.Close()
+		mu.Lock()
+		defer mu.Unlock()
+		return out, true
+	}
+	all := make([]int, len(fam))
+	for i := range all {
+		all[i] = i
+	}
+	shared, ok := collect(all)
+	if !ok {
+		return
+	}
+	for i := range fam {
+		alone, ok := collect([]int{i})
+		if !ok {
+			return
+		}
+		name := fmt.Sprintf("f%d", i)
+		if fmt.Sprint(alone[name]) != fmt.Sprint(shared[name]) {
+			c.Violation("m3-bucket-tags-differ-when-sets-share-a-reporter", map[string]interface{}{"why": fmt.Sprintf("set %d (%s): bucket tags emitted on a reporter of its own %v; emitted after the other sets of the family were allocated on the same reporter %v", i, fam[i].Why, alone[name], shared[name]), "family": fam})
+			return
+		}
+		c.Event("m3-bucket-tag-lists-compared", 1)
+	}
 }
